@@ -190,7 +190,17 @@ var ruleO1 = &Rule{
 						key = fmt.Sprintf("%s #%d", key, nth)
 					}
 					seenKey[key] = true
-					if sl, ok := ast.Unparen(as.Rhs[0]).(*ast.SliceExpr); ok && c.normText(sl.X) == lt {
+					resliced := false
+					if sl, ok := ast.Unparen(as.Rhs[0]).(*ast.SliceExpr); ok {
+						if c.normText(sl.X) == lt {
+							resliced = true
+						}
+						// … or a re-slice of the local copy that was handed over (same backing array)
+						if id, ok := ast.Unparen(sl.X).(*ast.Ident); ok && alias[info.Uses[id]] == lt {
+							resliced = true
+						}
+					}
+					if resliced {
 						obls = append(obls, Obl{Key: key, Pos: c.pos(as.Pos()), Status: Violation,
 							Msg: fmt.Sprintf("`%s` keeps the backing array of a slice that was handed to another goroutine / returned to a caller: the next appends overwrite elements the receiver is still reading (entries lost or duplicated; a promise list shared between two batches)", c.normText(as))})
 					} else {
